@@ -1,5 +1,6 @@
 import ScpiVerif.Drv.Parse
 import ScpiVerif.Spec.Message
+import ScpiVerif.Spec.Chunking
 namespace ScpiVerif.Drv
 open ScpiVerif.Ctx ScpiVerif.Lexer ScpiVerif.Spec ScpiVerif.Spec.Message
 
@@ -271,8 +272,10 @@ def judgeParse (mode : String) (cmds : List Cmd) (inp : List String) (obs : List
       let r := (if e1 != e2 then ["C08.events_depend_on_segmentation"] else []) ++
                (if w1 != w2 then ["C08.output_depends_on_segmentation"] else []) ++
                (if t1 != t2 then ["C08.final_state_depends_on_segmentation"] else [])
-      -- known design limitation: the scan for a message terminator does not know about quoted strings
-      if !r.isEmpty ∧ terminatorInsideQuotes stream then ["C08.terminator_inside_quotes"] else r
+      -- known design limitation: the scan for a message terminator does not know about quoted strings.
+      -- Never an excuse on a stream that satisfies the hypothesis of the C08 theorems (`QuotesLineLocal`: no quoted
+      -- string contains a line terminator): there the model is proved independent of the segmentation.
+      if !r.isEmpty ∧ terminatorInsideQuotes stream ∧ !Props.C08.quotesLineLocalB stream then ["C08.terminator_inside_quotes"] else r
     else if mode == "PU" then
       -- three runs: u1;u2 in one message | u1 alone | u2 alone on a fresh context with run 2's registers and queue
       let runs := (obs.foldl (fun (acc : List (List String)) t => if t == "||" then acc ++ [[]] else
